@@ -50,6 +50,18 @@ def build_hand(c):
         ie = 1.0 / (2.0 ** rng.integers(0, 3, size=(nc,) + sh[1:])); im = 1.0 / (2.0 ** rng.integers(0, 2, size=(nc,) + sh[1:]))
     else:
         ie = 1.0 / rng.uniform(1, 4, size=(nc,) + sh[1:]); im = 1.0 / rng.uniform(1, 2, size=(nc,) + sh[1:])
+    def full9(diag_exp, n_off):
+        """dyadic, non-symmetric 3x3 tensor field (row-major 9 components): diagonal 2^-k, off-diagonals in {0, +-1/8, +-1/16}"""
+        t = np.zeros((9,) + sh[1:])
+        offv = np.array([0.0, 0.0, 0.125, -0.125, 0.0625, -0.0625])
+        for r in range(3):
+            for q in range(3):
+                t[3 * r + q] = (1.0 / (2.0 ** rng.integers(0, diag_exp, size=sh[1:]))) if r == q else offv[rng.integers(0, n_off, size=sh[1:])]
+        return t
+    if c.get("full_eps"):
+        ie = full9(3, 6)
+    if c.get("full_mu"):
+        im = full9(2, 6)
     arrays = arrays.aset("fields->E", E).aset("fields->H", H).aset("inv_permittivities", jnp.asarray(ie)).aset("inv_permeabilities", jnp.asarray(im))
     if c.get("sigma"):
         se = rng.integers(0, 4, size=(nc,) + sh[1:]) / 2048.0 if c.get("pow2", True) else rng.uniform(0, 2e-3, size=(nc,) + sh[1:])
@@ -67,6 +79,8 @@ def build_hand(c):
 
 def bc3(a, sh):
     a = np.asarray(a)
+    if a.ndim == 4 and a.shape[0] == 9:      # full tensor: the diagonal (the off-diagonals are reported separately as ieps9 / imu9)
+        return a[[0, 4, 8]]
     return np.broadcast_to(a, (3,) + tuple(sh)) if a.ndim == 4 else np.broadcast_to(a.reshape((1, 1, 1, 1)), (3,) + tuple(sh))
 
 def cfl(a):
@@ -90,7 +104,9 @@ def describe(oc, arrays, cfg):
             "ieps": fl(bc3(arrays.inv_permittivities, sh)), "imu": fl(bc3(arrays.inv_permeabilities, sh)),
             "sigE": fl(bc3(arrays.electric_conductivity, sh)) if arrays.electric_conductivity is not None else None,
             "sigH": fl(bc3(arrays.magnetic_conductivity, sh)) if arrays.magnetic_conductivity is not None else None,
-            "cplx": bool(jnp.iscomplexobj(arrays.fields.E))}
+            "cplx": bool(jnp.iscomplexobj(arrays.fields.E)),
+            "ieps9": fl(np.asarray(arrays.inv_permittivities)) if np.ndim(arrays.inv_permittivities) == 4 and np.shape(arrays.inv_permittivities)[0] == 9 else None,
+            "imu9": fl(np.asarray(arrays.inv_permeabilities)) if np.ndim(arrays.inv_permeabilities) == 4 and np.shape(arrays.inv_permeabilities)[0] == 9 else None}
 
 def snap(st):
     return {"t": int(st[0]), "E": fl(st[1].fields.E), "H": fl(st[1].fields.H)}
